@@ -1,22 +1,28 @@
 package main
 
 import (
+	"reflect"
 	"sync"
 
 	"github.com/iotaledger/hive.go/runtime/timed"
 )
 
-// Per-queue handlers for the Poll yield hook (runtime/timed/verif_on.go). The hook variable is set once, before any
-// queue exists; queues without a registered handler pass straight through.
-var hookHandlers sync.Map // queue pointer (any) -> func(element any)
+// Per-object handlers for the yield hook of runtime/timed (verif_on.go). The hook variable is set once, before any
+// queue exists; objects without a registered handler pass straight through. The key is the address of the object the
+// hook reports as `queue`: the *Queue[T] for the poll:* points, the *TaskExecutor[T] for the task:* points.
+var hookHandlers sync.Map // uintptr -> func(point string, element any)
+
+func hookKey(obj any) uintptr { return reflect.ValueOf(obj).Pointer() }
+
+// executorQueueKey returns the key of the (unexported) queue of an Executor: the poll:* points of its workers report it.
+func executorQueueKey(ex *timed.Executor) uintptr {
+	return reflect.ValueOf(ex).Elem().FieldByName("queue").Pointer()
+}
 
 func init() {
 	timed.VerifYield = func(point string, queue any, element any) {
-		if point != "poll:popped" {
-			return
-		}
-		if h, ok := hookHandlers.Load(queue); ok {
-			h.(func(any))(element)
+		if h, ok := hookHandlers.Load(hookKey(queue)); ok {
+			h.(func(string, any))(point, element)
 		}
 	}
 }
